@@ -30,9 +30,13 @@ let () = each_line (fun line ->
       (String.concat "," (List.map name (take shown sched)))
       (String.concat "|" (List.map (fun e -> String.concat "" (List.map name e)) ens))
       (String.concat ";" got) (if fin then 1 else 0) (String.concat "" (List.map name (enabled s)))
-  | [("CHAIN" | "CHAINS" | "CHAINF" | "CHAINFS") as ckind0; blocks; per; stages; n; seed] ->
+  | ("CHAIN" | "CHAINS" | "CHAINF" | "CHAINFS" | "CHAINIO") as ckind0 :: blocks :: per :: stages :: n :: seed :: io ->
     let fill_first = ckind0 = "CHAINF" || ckind0 = "CHAINFS" in
     let ckind = if ckind0 = "CHAINFS" then "CHAINS" else if ckind0 = "CHAINF" then "CHAIN" else ckind0 in
+    (* CHAINIO: the file workers of util/stream/io.hh; Read / PRead fill blocks like the Link source, a Stream source may leave an
+       empty block before the poison; Write / PWrite / WriteAndRecycle deliver the concatenated payloads; WriteAndRecycle is the
+       last worker itself (it also recycles) *)
+    let src_kind, sink_kind = match io with [a; b] -> a, b | _ -> (if ckind = "CHAINS" then "stream", "stream" else "link", "link") in
     (* the chain model under a seed-driven schedule: source + stage workers + sink + recycler *)
     let b = int_of_string blocks and per = int_of_string per and n = int_of_string n in
     let rec blocks_of i acc cur k = if i > n then List.rev (if cur = [] then acc else List.rev cur :: acc)
@@ -50,8 +54,9 @@ let () = each_line (fun line ->
       | 'd' -> List.filter (fun x -> let v = int_of_nat x in v < k || v >= k2)
       | _ -> (fun p -> p) in
     (* a Stream-based source ends with Stream::Poison: when the last block is exactly full it leaves one more, empty, block *)
-    let payloads = if ckind = "CHAINS" && n mod per = 0 then payloads @ [[]] else payloads in
-    let fs = (if stages = "-" then [] else List.map stage (String.split_on_char ',' stages)) @ [(fun p -> p); (fun p -> p)] in
+    let payloads = if src_kind = "stream" && n mod per = 0 then payloads @ [[]] else payloads in
+    let fs = (if stages = "-" then [] else List.map stage (String.split_on_char ',' stages)) @
+             (if sink_kind = "war" then [(fun p -> p)] else [(fun p -> p); (fun p -> p)]) in
     let nw = List.length fs in
     let st = ref (int_of_string seed land 0x3fffffff) in
     let rnd k = st := (!st * 1103515245 + 12345) land 0x3fffffff; (!st lsr 8) mod k in
@@ -74,7 +79,7 @@ let () = each_line (fun line ->
       end
     done;
     (* the sink reads block by block (CHAIN) or record by record through the Stream model (CHAINS) *)
-    let out = List.map int_of_nat (if ckind = "CHAINS" then stream_records (sink_seen !c) else List.concat (sink_seen !c)) in
+    let out = List.map int_of_nat (if sink_kind = "stream" then stream_records (sink_seen !c) else List.concat (sink_seen !c)) in
     let h = ref 0x14650FB0739D0383L in   (* same multiplicative hash as the C++ driver, 64 bit *)
     List.iter (fun v -> h := Int64.mul (Int64.logxor !h (Int64.of_int v)) 0x100000001b3L) out;
     let rec take k l = if k = 0 then [] else match l with [] -> [] | x :: r -> x :: take (k - 1) r in
